@@ -304,6 +304,7 @@ type State struct {
 	depth int
 	iterSeen map[int]string // rangeloop ordinal -> current "seen" set term (Array Int Bool)
 	guardSeen map[string]bool
+	ghostParams map[string]*V
 	deferStacks [][]*deferRec
 	stack []*ssa.Function
 }
